@@ -392,13 +392,28 @@ fn c08_hist(input: &Input, obs: &mut Obs) -> Result<(), Fail> {
 
 fn c08_plan(tier: Tier) -> Vec<Job> {
     let q = tier == Tier::Quick;
-    vec![Job { sub: "hist", kind: JobKind::Pbt { cases: if q { 40_000 } else { 800_000 }, max_len: 700 }, smallbuf: false }]
+    vec![
+        Job { sub: "hist", kind: JobKind::Pbt { cases: if q { 40_000 } else { 800_000 }, max_len: 700 }, smallbuf: false },
+        Job { sub: "flood", kind: JobKind::Enum { f: c08_flood_enum, bound: "65535, 65536 and 65537 unanswered requests of one well-behaved client (plus one of another client in the same batch), both accept orders" }, smallbuf: false },
+    ]
+}
+
+fn c08_flood_enum(_tier: Tier, shard: u64, nshards: u64, f: &mut dyn FnMut(&[u64]) -> bool) {
+    let mut c = 0u64;
+    for n in [65535u64, 65536, 65537] {
+        for order in 0..2u64 {
+            c += 1;
+            if c % nshards == shard && !f(&[n, order]) {
+                return;
+            }
+        }
+    }
 }
 
 pub fn c08() -> PropDef {
     PropDef {
         id: "C08",
-        subs: vec![("hist", c08_hist)],
+        subs: vec![("hist", c08_hist), ("flood", c08_flood)],
         plan: c08_plan,
         rule: "case = history over 1..4 clients that never close and send only well-formed tagged requests (split at arbitrary points, pipelined, with/without body and Expect), client reads of arbitrary size, application responses immediate/delayed/batched/out of order with sizes from a few bytes to 320 KB (optionally with the server-side SO_SNDBUF shrunk), flush_outgoing_writes when everything queued is small, explicit polls and settles; requests() is only called when poll(2) reports the epoll descriptor readable; oracle = every API call Ok, each request yielded exactly once with the composed content, every supplied response received byte-exact in order, interim responses exactly for qualifying requests, settle within the progress bound, epoll silent at quiescence, flush delivers without polling; non-trivial = (>=2 clients or pipelining) and (delayed/out-of-order response, response larger than the socket buffer, Expect request or flush)",
         assumptions: vec![
@@ -462,7 +477,15 @@ fn witness_roundtrip(w: &mut World, wit: usize, s: &mut Src, budget: usize) -> R
 /// single malformed request lines (complete, CRLF-terminated)
 const GARBAGE_LINES: [&[u8]; 4] = [b"BADMETHOD / HTTP/1.1\r\n", b"GET /x HTTP/9.9\r\n", b"GET\r\n", b"\0\xff\xfe garbage\r\n"];
 
-const GARBAGE: [&[u8]; 12] = [
+const GARBAGE: [&[u8]; 20] = [
+    b"GET /\xc3\xa9 HTTP/1.1\r\n\r\n",
+    b"GET /a\xc3\xa9 HTTP/1.1\r\n\r\n",
+    b"GET /ab\xc3\xa9/x HTTP/1.1\r\n\r\n",
+    b"GET /abc\xc3\xa9/x HTTP/1.1\r\n\r\n",
+    b"GET /abcd\xc3\xa9/x HTTP/1.1\r\n\r\n",
+    b"GET /abcde\xc3\xa9/x HTTP/1.1\r\n\r\n",
+    b"GET /abcdef\xe4\xb8\xad/x HTTP/1.1\r\n\r\n",
+    b"GET http:/\xc3\xa9/x HTTP/1.1\r\n\r\n",
     b"PUT / HTTP/1.1\r\nContent-Length: 18446744073709551616\r\n\r\n",
     b"PUT / HTTP/1.1\r\nContent-Length: 99999999999999999999999999999999999999999\r\n\r\n",
     b"PUT / HTTP/1.1\r\nContent-Length: 18446744073709551615\r\n\r\n",
@@ -1147,7 +1170,15 @@ fn c10_hist(input: &Input, obs: &mut Obs) -> Result<(), Fail> {
                         let size = if s.chance(30) { 300_000 } else { s.range(0, 500) };
                         // any status the application likes, interim and body-less ones included
                         let code = [200u16, 200, 404, 100, 204, 503, 400][s.weighted(&[8, 8, 2, 3, 3, 1, 1])];
-                        w.respond(0, code, size);
+                        let c0 = w.outstanding[0].c;
+                        let same: Vec<usize> = w.outstanding.iter().enumerate().filter(|(_, o)| o.c == c0).map(|(i, _)| i).collect();
+                        if same.len() >= 2 && s.chance(128) {
+                            // all answers for one client handed over in one batch
+                            w.respond_batch_in_order(&same, code, size.min(500));
+                            obs.label("batch_of_answers_for_one_client");
+                        } else {
+                            w.respond(0, code, size);
+                        }
                     }
                 }
                 6 => {
@@ -1660,6 +1691,15 @@ fn c10_micro(input: &Input, obs: &mut Obs) -> Result<(), Fail> {
 /// it arriving in the same batch as the completion of another client's request; then both
 /// clients leave, everything is answered, and the server holds nothing. params = [n, order]
 fn c10_flood(input: &Input, obs: &mut Obs) -> Result<(), Fail> {
+    flood("C10", input, obs)
+}
+
+/// (the same history consists of well-behaved clients only until they leave)
+fn c08_flood(input: &Input, obs: &mut Obs) -> Result<(), Fail> {
+    flood("C08", input, obs)
+}
+
+fn flood(prop: &str, input: &Input, obs: &mut Obs) -> Result<(), Fail> {
     SERVER_FROM_FD.with(|c| c.set(false));
     KILL_AFTER_START.with(|c| c.set(false));
     let p = input.params();
@@ -1735,7 +1775,7 @@ fn c10_flood(input: &Input, obs: &mut Obs) -> Result<(), Fail> {
     }
     match r {
         Ok(()) => Ok(()),
-        Err((sig, msg)) => Err(Fail::new(&format!("C10:{}", sig), msg)),
+        Err((sig, msg)) => Err(Fail::new(&format!("{}:{}", prop, sig), msg)),
     }
 }
 
@@ -2061,6 +2101,15 @@ fn c07_hist(input: &Input, obs: &mut Obs) -> Result<(), Fail> {
             }
             if s.chance(128) {
                 w.settle(100, false);
+            }
+            // the application may flush at any time (here: after the client left, before the
+            // newcomer arrives and before the late answers)
+            if s.chance(90) {
+                w.flush();
+                obs.label("flush_after_client_left_with_requests_in_flight");
+                if s.chance(128) {
+                    w.settle(100, false);
+                }
             }
             let c2 = next_slot;
             next_slot += 1;
@@ -2804,7 +2853,9 @@ fn c04_server(input: &Input, obs: &mut Obs) -> Result<(), Fail> {
                         obs.label("earlier_response_needed_several_writes");
                     }
                     w.clients[c].lazy = false;
-                    w.settle(400, true);
+                    // (however many polls the server needs to get the rest out)
+                    let b = w.progress_bound();
+                    w.settle(b, true);
                 }
             }
             // every connected client sends a request with n around its own limit
